@@ -55,16 +55,18 @@ def replay(ctx, payload):
 MANIFEST = dict(
     level_text="Lean 4 theorems about the executable model of Model._simplify_once: every pass removes equations and unknowns in "
                "pairs and maps a self-contained model to a self-contained one, for all option sets and unbounded models; for the "
-               "alias detection this is proved from an invariant of AliasRelation (shared class lists closed under negation, one "
+               "alias detection (any pass, first or later) this is proved from an invariant of AliasRelation (shared class lists closed under negation, one "
                "canonical member per class) that `_make_alias` preserves because it only joins unrelated variables, with the "
                "counting lemma 'one more non-canonical name per add' and 'non-canonical members are algebraic, canonical ones are "
                "never eliminated'; composed over the pass list of one _simplify_once; the executable `dangling` check is proved "
                "equivalent to self-containedness. Tied to the real code on every run by the pass-by-pass correspondence on the "
                "serialised real MX (counts, variable lists, dangling symbols) and by a direct oracle (balance, symvar containment, "
                "construction of all four CasADi functions).",
-    level_note="Trusted: Lean kernel + standard axioms; the harness; CasADi's Function construction. A later alias-detection pass of "
-               "iterative_simplification (non-empty old_alias_relation) is covered by conditional (`_partial`) theorems and by the "
-               "correspondence; reduce_affine_expression and vector expansion by the direct oracle only.",
+    level_note="Trusted: Lean kernel + standard axioms; the harness; CasADi's Function construction. The alias-detection theorems "
+               "hold for every pass (also the later passes of iterative_simplification, relative to a non-empty old relation) under "
+               "the invariant of the alias relation that the previous pass leaves (hypotheses WF/JInv of the theorems; that the other "
+               "passes and AliasRelation.remove re-establish it between iterations is covered by the correspondence, not by a theorem). "
+               "Vector expansion is covered by the direct oracle only.",
     technique="Lean 4 proof (invariant of the signed union-find, per-pass counting and closure lemmas, induction over the pass list) + "
               "pass-by-pass model/implementation correspondence + direct oracle",
 )
